@@ -125,6 +125,17 @@ def DECRYPT_ADAPTER_SIG := opc 84
 def adapterLock1 (pk tweakPoint : Bytes) (flags : Nat) : Bytes :=
   GET_MESSAGE flags ++ pushB tweakPoint ++ pushB pk ++ CHECK_ADAPTER_SIG
 
+def CONCAT := opc 55
+
+/-- `make_adapter_lock_pub` (the deprecated single-script form; the witness pushes t, sa, R): checks the
+    adapter, decrypts it with `t`, and checks the decrypted signature (with the flag byte appended
+    when the flags are not 00 — repair F16) -/
+def adapterLockPub (pk tweakPoint : Bytes) (flags : Nat) : Bytes :=
+  writeCache "R" 1 ++ (writeCache "sa" 1 ++ (writeCache "t" 1 ++
+  (readCache "sa" ++ (readCache "R" ++ (GET_MESSAGE flags ++ (pushB tweakPoint ++ (pushB pk ++ (CHECK_ADAPTER_SIG ++ (opc VERIFY ++
+  (readCache "sa" ++ (readCache "R" ++ (readCache "t" ++ (DECRYPT_ADAPTER_SIG ++ (CONCAT ++
+  ((if flags = 0 then [] else pushB [UInt8.ofNat flags] ++ CONCAT) ++ (pushB pk ++ CHECK_SIG flags))))))))))))))))
+
 /-- `make_adapter_decrypt` (ValueError for a tweak shorter than 32 bytes) -/
 def adapterDecrypt (tweak : Bytes) : R Bytes := do
   let t ← Sodium.clampScalar tweak false
